@@ -54,6 +54,11 @@ func (s *StorageClient) Set(key string, item *mc.Item, noreply bool) (bool, erro
 		// tombstone with a body and its buffer would never be released
 		return false, nil
 	}
+	if uint32(item.Flag)&store.FLAG_COMPRESS != 0 {
+		// the bit is reserved for the server ("compressed by the store"): a value that arrives with it set would be
+		// handed, as it is, to the C decompressor on every read
+		return false, nil
+	}
 	ki := s.prepare(key, false)
 	payload := &store.Payload{}
 	payload.Flag = uint32(item.Flag)
